@@ -18,6 +18,8 @@ def main(argv=None):
     ap.add_argument('--timeout', type=int, default=20000)
     ap.add_argument('--jobs', type=int, default=16)
     ap.add_argument('-v', '--verbose', action='store_true')
+    ap.add_argument('--write-baseline', action='store_true')
+    ap.add_argument('--replay')
     ap.add_argument('--dump', help='write SMT-LIB of obligations whose name contains this string')
     args = ap.parse_args(argv)
     from . import verify, smt
@@ -38,7 +40,7 @@ def main(argv=None):
                 print('%-10s %6.2fs %s' % (r['status'], r['seconds'], ob.name))
                 if r['status'] != 'discharged' and args.verbose:
                     print('    clause:', ob.meta.get('clause'))
-                    print('    path:', ob.meta.get('branches'))
+                    print('    path:', [str(f)[:120] for f in getattr(ob, 'branch_terms', [])])
             if args.dump and args.dump in ob.name:
                 open('/tmp/dump_%s.smt2' % abs(hash(ob.name)), 'w').write(ob.smt2)
                 print('dumped', ob.name)
